@@ -157,6 +157,7 @@ impl Prop for C13 {
         v.push(GenSpec::random("huge-coordinates", tier.pick(2_000, 200_000)));
         v.push(GenSpec::random("rects-random", tier.pick(2_000, 100_000)));
         v.push(GenSpec::random("paths", tier.pick(3_000, 300_000)));
+        v.push(GenSpec::random("paths-interleaved", tier.pick(1_500, 150_000)));
         v
     }
     fn run_case(&self, cx: &mut Cx) {
@@ -305,6 +306,65 @@ impl Prop for C13 {
                 cx.nontrivial(crate::rt::prng::strhash(&format!("{:?}{}", pts, w)));
                 self.check_path(cx, &pts, w, &qs);
                 cx.sample(|| json!({"path": pts, "width": w, "queries": qs.len()}));
+            }
+            "paths-interleaved" => {
+                // an answer depends on the shape and the point asked about, not on what was asked before: several paths living side by side
+                // (a path and its shifted / widened copies, an unrelated neighbour) are queried in a shuffled order over one shared point set,
+                // so that a hit on one path is directly followed by a query on another at a point inside the first
+                let npts = 2 + cx.rng.usize(6);
+                let w = cx.rng.range(1, 30);
+                let origin = (cx.rng.range(-5_000, 5_000), cx.rng.range(-5_000, 5_000));
+                let a = manhattan_path(&mut cx.rng, npts, 50, origin);
+                let (sx, sy) = (cx.rng.range(-40, 40), cx.rng.range(-40, 40));
+                let mut paths: Vec<(Vec<P>, i64)> = vec![(a.clone(), w)];
+                paths.push((a.iter().map(|p| (p.0 + sx, p.1 + sy)).collect(), w));
+                paths.push((a.clone(), (w / 3).max(1)));
+                let o2 = (origin.0 + cx.rng.range(-80, 80), origin.1 + cx.rng.range(-80, 80));
+                let n2 = 2 + cx.rng.usize(4);
+                let w2 = cx.rng.range(1, 30);
+                paths.push((manhattan_path(&mut cx.rng, n2, 50, o2), w2));
+                let mut pool: Vec<P> = Vec::new();
+                for (pts, pw) in &paths {
+                    for p in pts {
+                        for dx in [-(pw / 2) - 1, -(pw / 2), 0, pw / 2, pw / 2 + 1] {
+                            for dy in [-(pw / 2) - 1, 0, pw / 2 + 1] {
+                                pool.push((p.0 + dx, p.1 + dy));
+                            }
+                        }
+                    }
+                    for k in 0..pts.len() - 1 {
+                        pool.push(((pts[k].0 + pts[k + 1].0) / 2, (pts[k].1 + pts[k + 1].1) / 2));
+                    }
+                }
+                let shapes: Vec<Shape> = paths.iter().map(|(pts, pw)| Shape::Path(Path { points: pts.iter().map(|p| pt(*p)).collect(), width: *pw as usize })).collect();
+                cx.nontrivial(crate::rt::prng::strhash(&format!("{:?}", paths)));
+                let nq = 4 * pool.len();
+                let mut prev_hit: Option<usize> = None;
+                for _ in 0..nq {
+                    let k = cx.rng.usize(shapes.len());
+                    let q = *cx.rng.pick(&pool);
+                    cx.eval();
+                    let got = match guard(|| shapes[k].contains(&pt(q))) {
+                        Ok(g) => g,
+                        Err(c) => {
+                            cx.violation(&format!("path|panic|{}|{}", c.site(), c.norm_msg()), json!({"path": paths[k].0, "width": paths[k].1, "point": q, "panic": c.msg}));
+                            return;
+                        }
+                    };
+                    let after = match prev_hit {
+                        Some(j) if j != k => "after-a-hit-on-another-path",
+                        Some(_) => "after-a-hit-on-the-same-path",
+                        None => "after-a-miss",
+                    };
+                    match path_class(&paths[k].0, paths[k].1, q) {
+                        PathClass::MustBeInside if !got => cx.violation(&format!("path|interleaved|inside-reported-outside|{}", after), json!({"path": paths[k].0, "width": paths[k].1, "point": q})),
+                        PathClass::MustBeOutside if got => cx.violation(&format!("path|interleaved|outside-reported-inside|{}", after), json!({"path": paths[k].0, "width": paths[k].1, "point": q, "previous_query_hit_path": prev_hit.map(|j| paths[j].0.clone())})),
+                        PathClass::CapBand => cx.count("path_capband_not_judged"),
+                        _ => cx.count(&format!("path_interleaved_agree.{}", after)),
+                    }
+                    prev_hit = if got { Some(k) } else { None };
+                }
+                cx.sample(|| json!({"paths": paths.len(), "queries": nq}));
             }
             other => cx.inconclusive(format!("unknown generator {}", other)),
         }
